@@ -108,3 +108,96 @@ def block_exceptions(U, chunk):
 
 
 block_exceptions.enumerate_inputs = lambda tier, chunk: S.enumerator(tier, chunk)
+
+
+# ------------------------------------------------------------------------------------------------
+# Loop contract (unbounded): Exceptions.get_exception over a try table of ARBITRARY length.  The table is a ghost sequence: range k
+# has bounds lo(k) <= hi(k) given by uninterpreted functions.  Skolem constants: `w` an arbitrary overlapping range (witness mode:
+# the result may not be None), `j` an arbitrary index before the returned one (it does not overlap: the FIRST overlapping range of
+# the table is returned).
+import z3  # noqa: E402
+
+from pyvc import core  # noqa: E402
+from pyvc.loops import AbstractSeq, LoopSpec  # noqa: E402
+
+
+class _GR:
+    def __init__(self, world, k):
+        self.k = k
+        self.start, self.end = world.lo(k), world.hi(k)
+
+
+class _Ranges:
+    def __init__(self, U):
+        self.U = U
+        if U.mode == "sym":
+            self.n = U.int("n", 0, 1 << 20)
+            self.flo = z3.Function("try_lo", z3.BitVecSort(core.W), z3.BitVecSort(core.W))
+            self.flen = z3.Function("try_len", z3.BitVecSort(core.W), z3.BitVecSort(core.W))
+        else:
+            self.n = U.int("n", 0, 5)
+            self.rs = [(U.int("s%d" % i, 0, 40), U.int("l%d" % i, 1, 12)) for i in range(self.n)]
+            self.items = [_GR(self, i) for i in range(self.n)]
+
+    def lo(self, k):
+        if self.U.mode != "sym":
+            return self.rs[k][0] if 0 <= k < self.n else 10 ** 9
+        t = self.flo(core.SymInt.lift(k).t)
+        core.ctx().add_fact(z3.And(t >= 0, t <= (1 << 33)))
+        return core.SymInt(t, 0, 1 << 33)
+
+    def hi(self, k):
+        if self.U.mode != "sym":
+            return self.rs[k][0] + self.rs[k][1] - 1 if 0 <= k < self.n else -1
+        ln = self.flen(core.SymInt.lift(k).t)
+        core.ctx().add_fact(z3.And(ln >= 1, ln <= (1 << 18)))
+        return self.lo(k) + core.SymInt(ln, 1, 1 << 18) - 1
+
+    def overlaps(self, k, a, b):
+        return And(self.lo(k) <= b, a <= self.hi(k))
+
+    def seq(self):
+        return list(self.items) if self.U.mode != "sym" else AbstractSeq(self.n, lambda k: _GR(self, k), "try ranges")
+
+
+def _inv_getexc(spec, L, k):
+    g = spec.G
+    w, j = g["world"], g["j"]
+    inv = Implies(And(0 <= j, j < k), Not(w.overlaps(j, g["a"], g["b"])))
+    if g.get("witness") is not None:
+        inv = And(inv, k <= g["witness"])
+    return inv
+
+
+GETEXC = LoopSpec("Exceptions.get_exception#0", invariant=_inv_getexc, const=("self", "addr_start", "addr_end"))
+
+
+@unit("C12", covers=[(ANA, "Exceptions.get_exception")], params=[{"mode": m} for m in ("witness", "free")],
+      loops={(ANA, "Exceptions.get_exception", 0): GETEXC}, samples=200,
+      note="loop contract, try table of any length: invariant `no range before position k overlaps the block` (Skolem index j)")
+def get_exception_unbounded(U, mode):
+    ana = U.mod(ANA)
+    world = _Ranges(U)
+    ex = ana.Exceptions()
+    ex.exceptions = world.seq()
+    a = U.int("a", 0, (1 << 33) if U.mode == "sym" else 50)
+    b = a + U.int("blen", 1, (1 << 18) if U.mode == "sym" else 12) - 1
+    j = U.int("j", 0, (1 << 20) if U.mode == "sym" else 5)
+    wit = None
+    if mode == "witness":
+        wit = U.int("w", 0, (1 << 20) if U.mode == "sym" else 5)
+        U.assume(wit < world.n)
+        U.assume(world.overlaps(wit, a, b))
+    GETEXC.G = {"world": world, "a": a, "b": b, "j": j, "witness": wit}
+    o = U.call(ex.get_exception, a, b)
+    U.ensures("does not raise", o.ok, exc=repr(o.exc))
+    if not o.ok:
+        return
+    r = o.value
+    if mode == "witness":
+        U.cover("some range overlaps the block")
+        U.ensures("when a try range overlaps the block, a range is reported", r is not None)
+    if r is not None:
+        U.ensures("the reported range is a range of the table and overlaps the block",
+                  And(0 <= r.k, r.k < world.n, r.start <= b, a <= r.end))
+        U.ensures("it is the first overlapping range of the table", Implies(And(0 <= j, j < r.k, j < world.n), Not(world.overlaps(j, a, b))))
